@@ -17,8 +17,22 @@ func mkFixtures(dir string) {
 	r := NewRng(20261001)
 	os.MkdirAll(filepath.Join(dir, "pgp"), 0o755)
 	for i := 1; i <= 3; i++ {
-		os.WriteFile(filepath.Join(dir, "pgp", fmt.Sprintf("key%d.asc", i)), freshArmoredPGPKey(r), 0o644)
+		writeIfMissing(filepath.Join(dir, "pgp", fmt.Sprintf("key%d.asc", i)), func() []byte { return freshArmoredPGPKey(r) })
 	}
-	os.WriteFile(filepath.Join(dir, "pgp", "ids3.asc"), pgpKeyWithIdentities(r, 3, time.Date(2024, 3, 1, 23, 30, 0, 0, time.UTC)), 0o644)
-	os.WriteFile(filepath.Join(dir, "pgp", "ids4.asc"), pgpKeyWithIdentities(r, 4, time.Date(2023, 12, 31, 0, 10, 0, 0, time.UTC)), 0o644)
+	writeIfMissing(filepath.Join(dir, "pgp", "ids3.asc"), func() []byte {
+		return pgpKeyWithIdentities(r, 3, time.Date(2024, 3, 1, 23, 30, 0, 0, time.UTC))
+	})
+	writeIfMissing(filepath.Join(dir, "pgp", "ids4.asc"), func() []byte {
+		return pgpKeyWithIdentities(r, 4, time.Date(2023, 12, 31, 0, 10, 0, 0, time.UTC))
+	})
+	writeIfMissing(filepath.Join(dir, "pgp", "expiring.asc"), func() []byte {
+		return pgpKeyExpiring(r, time.Date(2024, 1, 10, 22, 30, 0, 0, time.UTC), 365*86400)
+	})
+}
+
+func writeIfMissing(p string, f func() []byte) {
+	if _, err := os.Stat(p); err == nil {
+		return
+	}
+	os.WriteFile(p, f(), 0o644)
 }
